@@ -53,20 +53,20 @@ def _first_diff(a, b, path="$"):
 
 
 def judge(rec):
-    k1, k2 = rec["pair"]
-    b, c1, c2 = rec["batch"], rec["chain"][0], rec["chain"][1]
-    if b["exit"] != 0 or c1["exit"] != 0 or c2["exit"] != 0:
-        if (b["exit"] == 0) != (c1["exit"] == 0 and c2["exit"] == 0):
-            yield "exit-differs", f"batch exit {b['exit']} vs chain exits {c1['exit']},{c2['exit']}"
+    ks = list(rec["pair"]) if "pair" in rec else list(rec["seq"])
+    b, chain = rec["batch"], rec["chain"]
+    if b["exit"] != 0 or any(c["exit"] != 0 for c in chain):
+        if (b["exit"] == 0) != all(c["exit"] == 0 for c in chain):
+            yield "exit-differs", f"batch exit {b['exit']} vs chain exits {[c['exit'] for c in chain]}"
         return
-    tb, tc = b["tree"], c2["tree"]
+    tb, tc = b["tree"], chain[-1]["tree"]
     diff_files = sorted(p for p in set(tb) | set(tc) if tb.get(p) != tc.get(p))
     if diff_files:
         p = diff_files[0]
         yield f"tree-differs:{p}", (
             f"files differ between one run and the chain: {diff_files}; {p}: batch={tb.get(p)!r:.300} chain={tc.get(p)!r:.300}"
         )
-    for i, (k, single) in enumerate(((k1, c1), (k2, c2))):
+    for i, (k, single) in enumerate(zip(ks, chain)):
         rb = _norm_result(_res_for(b["results"], k))
         rs = _norm_result(_res_for(single["results"], k))
         d = _first_diff(rb, rs)
@@ -88,6 +88,16 @@ def explore(tier, seed):
         equal += not found
         for kind, detail in found:
             cands.setdefault(f"seq|{k1}>{k2}|{kind}", ({"sequence": True, "pair": [k1, k2], "kind": kind}, detail))
+    triples, thit, twall = seqspace.explore_triples(tier, seed)
+    tequal = 0
+    for ks, rec in sorted(triples.items()):
+        states.add(core.tree_state_id(rec["files"]))
+        for t in [rec["batch"]["tree"]] + [c["tree"] for c in rec["chain"]]:
+            states.add(core.tree_state_id({k: v for k, v in t.items() if isinstance(v, bytes)}))
+        found = list(judge(rec))
+        tequal += not found
+        for kind, detail in found:
+            cands.setdefault(f"seq|{'>'.join(ks)}|{kind}", ({"sequence": True, "seq": list(ks), "kind": kind}, detail))
     known_open = {k["signature"] for k in core.load_known() if k["property"] == PROP and k["status"] == "open"}
     new = [(sig, c) for sig, c in sorted(cands.items()) if sig not in known_open]
     repro = drive.confirm_replays("cmverif.checks.c09", [c[0] for _, c in new])
@@ -103,8 +113,12 @@ def explore(tier, seed):
     changed_by_both = sum(1 for r in pairs.values() if r["chain"][0]["tree"] != r["files"] and r["chain"][1]["tree"] != r["chain"][0]["tree"])
     coverage = {
         "states": len(states),
-        "transitions": 3 * len(pairs),
-        "traces_validated_against_impl": len(pairs) + 6 * len(new),
+        "transitions": 3 * len(pairs) + 4 * len(triples),
+        "traces_validated_against_impl": len(pairs) + len(triples) + 6 * len(new),
+        "ordered_triples": len(triples),
+        "triples_with_equal_outcome": tequal,
+        "triple_codemods": seqspace.triple_codemods(tier),
+        "triple_cache_hit": thit,
         "exhaustive": True,
         "samples": [{"pair": list(p), "files": sorted(r["files"]), "batch_changed": sorted(k for k in r["files"] if r["batch"]["tree"].get(k) != r["files"][k])} for p, r in sorted(pairs.items())[:2]],
         "ordered_pairs": len(pairs),
@@ -124,6 +138,6 @@ def explore(tier, seed):
 
 
 def replay(rp):
-    rec = seqspace.pair_job_cli(tuple(rp["pair"]))
+    rec = seqspace.seq_job_cli(tuple(rp["seq"])) if "seq" in rp else seqspace.pair_job_cli(tuple(rp["pair"]))
     found = list(judge(rec))
     return (rp["kind"] not in {k for k, _ in found}), "\n".join(f"{k}: {d}" for k, d in found) or "one run == chain of single runs"
